@@ -1,5 +1,4 @@
-// PROBE (throw-away): appended to crates/aranya-policy-vm/src/lib.rs in a scratch copy.
-// step_next: 9 s, finds todo!(); step_add: did not finish in 15 min (BTreeMap drop glue).
+// PROBE (throw-away), appended to aranya-policy-vm/src/lib.rs in a scratch copy. Not part of the machinery.
 #[cfg(kani)]
 mod verif_kani {
     extern crate alloc;
@@ -47,6 +46,56 @@ mod verif_kani {
             Some(c) => assert!(top == Ok(Value::Option(Some(alloc::boxed::Box::new(Value::Int(c)))))),
             None => assert!(top == Ok(Value::NONE)),
         }
+    }
+
+    #[kani::proof]
+    #[kani::unwind(4)]
+    #[kani::stub(alloc::fmt::format, nofmt)]
+    fn step_add2() {
+        let machine = Machine::new(vec![Instruction::Add]);
+        let mut io = NoIo;
+        let ctx = CommandContext::Action(ActionContext { name: ident!("a"), head_id: CmdId::default() });
+        let mut rs = machine.create_run_state(&mut io, ctx);
+        let a: i64 = kani::any();
+        let b: i64 = kani::any();
+        let _ = rs.stack.push_value(Value::Int(a));
+        let _ = rs.stack.push_value(Value::Int(b));
+        let r = rs.step();
+        let ok = r.is_ok();
+        core::mem::forget(r);
+        assert!(ok);
+        let top = rs.stack.pop_value();
+        let good = match (&top, a.checked_add(b)) {
+            (Ok(Value::Option(Some(bx))), Some(c)) => matches!(**bx, Value::Int(x) if x == c),
+            (Ok(Value::Option(None)), None) => true,
+            _ => false,
+        };
+        core::mem::forget(top);
+        core::mem::forget(rs);
+        core::mem::forget(machine);
+        assert!(good);
+    }
+
+    #[kani::proof]
+    #[kani::unwind(4)]
+    #[kani::stub(alloc::fmt::format, nofmt)]
+    fn step_jump_sym() {
+        let t: usize = kani::any();
+        let machine = Machine::new(vec![Instruction::Jump(Target::Resolved(t))]);
+        let mut io = NoIo;
+        let ctx = CommandContext::Action(ActionContext { name: ident!("a"), head_id: CmdId::default() });
+        let mut rs = machine.create_run_state(&mut io, ctx);
+        let r = rs.step();
+        let ok = r.is_ok();
+        core::mem::forget(r);
+        assert!(ok);
+        assert!(rs.pc() == t);
+        let r2 = rs.step(); // pc may now be out of range: must be an error, not a panic
+        let e2 = r2.is_err();
+        core::mem::forget(r2);
+        if t != 0 { assert!(e2); }
+        core::mem::forget(rs);
+        core::mem::forget(machine);
     }
 
     #[kani::proof]
